@@ -694,6 +694,100 @@ func TestMutationDuringIterationV2(t *testing.T) {
 	evid.Exhaustive("v2: write to a later position during for-in: via x offset x operator; rows", n)
 }
 
+// TestMultiAssignTargetsV2: the targets of `a, b = x, y` are assigned from left to right after the whole right side
+// was evaluated: a later index target sees what an earlier target bound, an index key names are looked up when their
+// target is assigned, aliases stay aliases.
+func TestMultiAssignTargetsV2(t *testing.T) {
+	ix := func(n string, k *gen.Node) *gen.Node { return gen.NIndex(id(n), k) }
+	l78 := func() *gen.Node { return gen.NList(i64(7), i64(8)) }
+	type cs struct {
+		name string
+		pre  []string // which of l, m, o, a are defined beforehand
+		lhs  []*gen.Node
+		rhs  []*gen.Node
+	}
+	cases := []cs{
+		{"name-then-its-element", []string{"l"}, []*gen.Node{id("l"), ix("l", i64(0))}, []*gen.Node{l78(), i64(5)}},
+		{"element-then-name", []string{"l"}, []*gen.Node{ix("l", i64(0)), id("l")}, []*gen.Node{i64(5), l78()}},
+		{"fresh-name-then-its-element", nil, []*gen.Node{id("l"), ix("l", i64(0))}, []*gen.Node{l78(), i64(5)}},
+		{"fresh-map-then-its-key", nil, []*gen.Node{id("m"), ix("m", str("k"))}, []*gen.Node{gen.NMap(str("a"), i64(1)), i64(2)}},
+		{"map-then-its-key", []string{"m"}, []*gen.Node{id("m"), ix("m", str("k"))}, []*gen.Node{gen.NMap(str("z"), i64(0)), i64(2)}},
+		{"alias-then-element-of-source", []string{"l", "o"}, []*gen.Node{id("l"), ix("o", i64(0))}, []*gen.Node{id("o"), i64(4)}},
+		{"element-of-source-then-alias", []string{"l", "o"}, []*gen.Node{ix("o", i64(0)), id("l")}, []*gen.Node{i64(4), id("o")}},
+		{"swap-elements", []string{"l"}, []*gen.Node{ix("l", i64(0)), ix("l", i64(1))}, []*gen.Node{ix("l", i64(1)), ix("l", i64(0))}},
+		{"name-and-two-elements", []string{"l"}, []*gen.Node{id("l"), ix("l", i64(0)), ix("l", i64(1))}, []*gen.Node{gen.NList(i64(0), i64(0)), i64(1), i64(2)}},
+		{"key-name-bound-earlier", []string{"l", "a"}, []*gen.Node{id("a"), ix("l", id("a"))}, []*gen.Node{i64(1), i64(70)}},
+		{"key-name-bound-later", []string{"l", "a"}, []*gen.Node{ix("l", id("a")), id("a")}, []*gen.Node{i64(70), i64(1)}},
+		{"same-name-twice", nil, []*gen.Node{id("x"), id("x")}, []*gen.Node{i64(1), i64(2)}},
+		{"element-of-undefined", nil, []*gen.Node{id("q"), ix("nolist", i64(0))}, []*gen.Node{i64(1), i64(2)}},
+		{"nested-element-after-rebind", []string{"l"}, []*gen.Node{id("l"), gen.NIndex(id("l"), i64(0), i64(1))}, []*gen.Node{gen.NList(gen.NList(i64(1), i64(2))), i64(9)}},
+		{"element-out-of-range-after-rebind", []string{"l"}, []*gen.Node{id("l"), ix("l", i64(2))}, []*gen.Node{l78(), i64(5)}},
+		{"from-multi-value-call", []string{"l"}, []*gen.Node{id("l"), ix("l", i64(1))}, []*gen.Node{gen.NCall("pmulti", l78(), i64(5))}},
+	}
+	n := 0
+	for _, c := range cases {
+		for where := 0; where < 3; where++ {
+			var prog []*gen.Node
+			has := map[string]bool{}
+			for _, p := range c.pre {
+				has[p] = true
+			}
+			if has["l"] {
+				prog = append(prog, gen.NSet("l", gen.NList(i64(1), i64(2), i64(3))), gen.NSet("keep", id("l")))
+			}
+			if has["m"] {
+				prog = append(prog, gen.NSet("m", gen.NMap(str("a"), i64(1))), gen.NSet("keepm", id("m")))
+			}
+			if has["o"] {
+				prog = append(prog, gen.NSet("o", gen.NList(i64(9), i64(9))))
+			}
+			if has["a"] {
+				prog = append(prog, gen.NSet("a", i64(0)))
+			}
+			var lhs, rhs []*gen.Node
+			for _, x := range c.lhs {
+				lhs = append(lhs, x.Clone())
+			}
+			for _, x := range c.rhs {
+				rhs = append(rhs, x.Clone())
+			}
+			asg := gen.NAssign("=", lhs, rhs)
+			var seen []*gen.Node
+			for _, nm := range []string{"l", "m", "o", "a", "x", "q", "keep", "keepm"} {
+				if has[nm] || nm == "keep" && has["l"] || nm == "keepm" && has["m"] {
+					seen = append(seen, id(nm))
+					continue
+				}
+				for _, tg := range c.lhs {
+					if tg.Kind == gen.Ident && tg.Name == nm {
+						seen = append(seen, id(nm))
+						break
+					}
+				}
+			}
+			after := gen.NCall("probe", append([]*gen.Node{str("after")}, seen...)...)
+			switch where {
+			case 0:
+				prog = append(prog, asg, after)
+			case 1: // inside a block: names defined before are updated, not shadowed
+				prog = append(prog, gen.NIf([]*gen.Node{gen.NBool(true)}, [][]*gen.Node{{asg, after.Clone()}}, nil, false))
+				if len(c.pre) > 0 {
+					var outer []*gen.Node
+					for _, p := range c.pre {
+						outer = append(outer, id(p))
+					}
+					prog = append(prog, gen.NCall("probe", append([]*gen.Node{str("outside")}, outer...)...))
+				}
+			default: // twice in a loop
+				prog = append(prog, gen.NForIn("it", gen.NList(i64(1), i64(2)), []*gen.Node{asg, after}))
+			}
+			judge(t, "multi-targets", sem.NewCase(gen.FixAll(prog)), fmt.Sprintf("multitargets/%s/%d", c.name, where), true, "multi-assign-targets-v2")
+			n++
+		}
+	}
+	evid.Exhaustive("v2 multi-assignment: target combinations (names, elements through the same name, aliases, key names) x {top level, block, loop}", n)
+}
+
 func TestFixedDialect(t *testing.T) {
 	cases := [][]*gen.Node{
 		{gen.NCall("probe", str("x"), id("undefined_name"))},
